@@ -405,6 +405,8 @@ pub struct Runner {
     pub mismatches: Vec<String>,
     /// what `verify()` has to answer on the current (loaded) file: set by `expectverify`
     pub expect_verify: Option<String>,
+    /// how many runs of the command-line tool hit their deadline so far
+    pub cli_hangs: u32,
 }
 
 
@@ -548,6 +550,7 @@ impl Runner {
             cur_built: false,
             mismatches: vec![],
             expect_verify: None,
+            cli_hangs: 0,
         }
     }
 
